@@ -122,6 +122,8 @@ package fsm
 //@   ensures rejected: !accepts(s, args, false, nil) ==> result != nil
 //@   ensures nil-only-if-accepted: result == nil ==> accepts(s, args, false, nil)
 //@   ensures no-failed-set: result == nil ==> (forall i int :: len(old(trace)) <= i && i < len(trace) && trace[i].kind == 5 ==> trace[i].b == 1)
+//@   ensures error-has-a-cause: result != nil ==> !accepts(s, args, false, nil) ||
+//@       (len(trace) > len(old(trace)) && trace[len(trace)-1].kind == 5 && trace[len(trace)-1].b == 0)
 
 // --- graph construction helpers (used by the parser) -----------------------------------------------------------------------
 //@ func NewState
